@@ -89,6 +89,14 @@ class TypeEnv:
                     return ('alias', f'{mod.name}:{aname}')
             return None
         if isinstance(res, str):
+            # façade paths that do not exist statically (e.g. 'dsl.Statement.Prepared' for the class nested in this
+            # module's Statement): accept a *unique* class of the same module whose qualname ends with the last two parts
+            parts = name.split('.')
+            if len(parts) >= 2:
+                tail = '.'.join(parts[-2:])
+                cands = [c for c in self.prog.classes.values() if c.module is module and (c.qual == tail or c.qual.endswith('.' + tail))]
+                if len(cands) == 1:
+                    return ('cls', cands[0].ref)
             return ('ext', res)
         return None
 
@@ -255,6 +263,12 @@ class TypeEnv:
                 uniq = {t for t in ts}
                 env[name] = ts[0] if len(uniq) == 1 else None
         return env
+
+    def bool_contexts(self, fn: core.FuncInfo) -> list:
+        key = '#bool:' + fn.ref
+        if key not in self._locals_cache:
+            self._locals_cache[key] = list(bool_contexts(fn.node))
+        return self._locals_cache[key]
 
     def _bind_iter(self, fn, target, it, env, bind) -> None:
         if isinstance(it, ast.Call) and core.call_name(it) == 'enumerate' and it.args:
